@@ -79,10 +79,9 @@ func pruneDocNulls(doc *partialDoc) *partialDoc {
 func pruneAryNulls(ary *partialArray) *partialArray {
 	newAry := []*lazyNode{}
 
+	// RFC 7396 replaces arrays wholesale: their elements are not merge
+	// patches, so null members of objects inside an array are data.
 	for _, v := range *ary {
-		if v != nil {
-			pruneNulls(v)
-		}
 		newAry = append(newAry, v)
 	}
 
